@@ -304,7 +304,12 @@ def run(chk, replay=None):
         m = r_model[k]
         want = [] if m == "None" else [ARM_COMP[m[1][0]]]
         got = sorted(r.get("changed", []))
-        if r.get("r") != "ok" or got != want:
+        # side effects through handler-to-handler forwards (not part of the routing): a T_CACHE row is forwarded by
+        # TableManager to both cache managers; a persistent instance registers its namespace as a weak namespace
+        extras = {"T_CACHE": {"cache", "legacy_cache"}, "T_NAMING_INSTANCE": {"namespace"}, "T_CONFIG": {"namespace"}}.get(c["tree"], set())
+        undecodable = str(r.get("result", "")).startswith("err:")
+        okr = r.get("r") == "ok" and (set(want) <= set(got) and set(got) - set(want) <= extras or (undecodable and got == []))
+        if not okr:
             mism += 1
             chk.violation("model != implementation (load_snapshot routing of tree %r key %r): model %s impl %s" % (
                 c["tree"], bytes(c["key"])[:12], want, got),
@@ -343,10 +348,18 @@ def run(chk, replay=None):
                 continue
             d = ph.get("restart_diff")
             if d is not None:
-                key = "none"
                 ds = json.dumps(d)
-                if "ghost" in ds or "676f6e6521" in ds or "67686f7374" in ds:
+                path = d.get("path", "") if isinstance(d, dict) else ""
+                if "ghost" in ds or c["plants"] and ("full-1" in ds):
                     key = "C01:snapshot-stale-tail"
+                elif path.startswith("/sequences") or "SEQ_CONFIG" in ds:
+                    key = "C01:compaction-concurrent-apply"
+                elif path.startswith("/cache"):
+                    key = "C01:direct-cache-snapshot-expired"
+                elif path.startswith("/namespace") and "__already_sync" in json.dumps(ph.get("start_dump", {}).get("namespace", {})):
+                    key = "C01:namespace-already-sync-marker"
+                else:
+                    key = "none"
                 chk.classify(key, "state served after restart differs from the state served before the stop (phase %d): %s" % (i, ds[:300]),
                              {"suite": "restart", "case": c, "phase": i, "diff": d})
 
